@@ -158,6 +158,7 @@ package j5convert
 //@   ensures known: (fieldType == "object" || fieldType == "oneof" || fieldType == "enum" || fieldType == "bool" || fieldType == "bytes" || fieldType == "float" || fieldType == "integer" || fieldType == "key" || fieldType == "string" || fieldType == "timestamp" || fieldType == "array") ==> result != nil
 //@   ensures result != nil ==> extof(ext_j5pb.E_Field, dest) == result && imported(ww, "j5/ext/v1/annotations.proto")
 //@   ensures result == nil ==> extof(ext_j5pb.E_Field, dest) == old(extof(ext_j5pb.E_Field, dest))
+//@   ensures fieldType == "key" && result != nil ==> typeis(result.Type, *ext_j5pb.FieldOptions_Key) && as(*ext_j5pb.FieldOptions_Key, result.Type) != nil && as(*ext_j5pb.FieldOptions_Key, result.Type).Key != nil
 //@   ensures fieldType == "object" && result != nil ==> typeis(result.Type, *ext_j5pb.FieldOptions_Object) && as(*ext_j5pb.FieldOptions_Object, result.Type) != nil && as(*ext_j5pb.FieldOptions_Object, result.Type).Object != nil
 
 // in / not_in rules name enum options with or without the prefix; each name is looked up in the
@@ -460,3 +461,11 @@ package j5convert
 //@   assert at return#2 inline.qualified.enum: result0.Package != ""
 //@   assert at return#3 inline.qualified.oneof: result0.Package != ""
 //@   assert at return#4 inline.qualified.object: result0.Package != ""
+
+// a custom key format is recorded on the key annotation as its pattern, which is what the reader turns
+// back into the custom format (C04)
+//@ spec func jkeyOf(o *descriptorpb.FieldOptions) *ext_j5pb.KeyField = as(*ext_j5pb.FieldOptions_Key, extof(ext_j5pb.E_Field, o).Type).Key
+//@ func buildField
+//@   ensures key.custom.ext: result1 == nil && typeis(node.Schema, *schema_j5pb.Field_Key) && keyField(node) != nil && keyField(node).Format != nil && typeis(keyField(node).Format.Type, *schema_j5pb.KeyFormat_Custom_) ==>
+//@   |   extof(ext_j5pb.E_Field, result0.Options) != nil && typeis(extof(ext_j5pb.E_Field, result0.Options).Type, *ext_j5pb.FieldOptions_Key) && jkeyOf(result0.Options) != nil
+//@   |   && typeis(jkeyOf(result0.Options).Type, *ext_j5pb.KeyField_Pattern) && as(*ext_j5pb.KeyField_Pattern, jkeyOf(result0.Options).Type).Pattern == as(*schema_j5pb.KeyFormat_Custom_, keyField(node).Format.Type).Custom.Pattern
